@@ -110,6 +110,18 @@ CLAIMS.update({
             'TLA+ spec + TLC exhaustive, spec->code replay of every state, code->spec trace validation', 'DESIGN.md section 5 C05', 'placement'),
 })
 
+CLAIMS.update({
+    'C20': ('model_checking',
+            'PixCoord.tla restates the numpy rules the class promises (broadcasting, basic/advanced indexing, iteration, length) on arrays '
+            'modelled as functions from index tuples to integers, and the algebraic laws: (a+b)-b=a, separation symmetric and zero iff equal, '
+            'rotation by a rational direction is an isometry for every operand shape, fixes the centre and composes by multiplying directions; '
+            'TLC checks them on all shape pairs (broadcastable and not) x ~30 index expressions x rotations; every state is replayed into the '
+            'real PixCoord (int and float dtypes); WCS round trips for origin 0/1 and mode all/wcs are checked against the origin-shift law on '
+            'real WCS objects; random arrays/expressions are validated by Trace_PixCoord.tla.',
+            'Trusts TLC and numpy as the executor of the replay comparison; rotation angles are rational directions; WCS projections are astropy\'s.',
+            'TLA+ spec + TLC exhaustive, spec->code replay of every state, code->spec trace validation', 'DESIGN.md section 5 C20', 'pixcoord'),
+})
+
 PENDING_REASON = ('specification module for this property is designed in DESIGN.md but its TLA+ module and '
                   'conformance binding are not built yet; not claimed until they are')
 
@@ -175,6 +187,8 @@ ENGINES.append({'name': 'purity', 'path': 'specs/Purity.tla specs/Trace_Purity.t
                 'serves_properties': ['C13'], 'kind_free_text': 'call histories from TLC -simulate replayed with deep fingerprints; fresh-interpreter comparison'})
 ENGINES.append({'name': 'placement', 'path': 'specs/PlacementOps.tla specs/Placement.tla specs/Trace_Placement.tla vf/engines/c05.py',
                 'serves_properties': ['C05'], 'kind_free_text': 'exact placement model of RegionMask operations'})
+ENGINES.append({'name': 'pixcoord', 'path': 'specs/PixCoord.tla specs/MC_PixCoord.tla specs/Trace_PixCoord.tla vf/engines/c20.py',
+                'serves_properties': ['C20'], 'kind_free_text': 'array model of PixCoord: broadcasting, indexing, group laws, rotation'})
 NA = {}
 
 
